@@ -652,6 +652,39 @@ def check_contour_trace(rec, M, cont, interior, tag):
               else "contour/refill/border-touching",
               lambda: f"refill(contour) != mask\nmask=\n{M.astype(int)}\n"
                       f"refilled=\n{rf.astype(int)}\ncontour={cont.tolist()}")
+    # the same with dclab's own refilling (contours stored as uint16 in tdms data)
+    for dt in (np.int64, np.uint16):
+        rd = dclab_refill(cont.astype(dt), M.shape)
+        rec.check(rd.shape == M.shape and np.array_equal(rd, M),
+                  f"contour/refill-by-dclab/{'interior' if interior else 'border-touching'}",
+                  lambda: f"MaskColumn refill of the {np.dtype(dt).name} contour != "
+                          f"mask\nmask=\n{M.astype(int)}\nrefilled=\n"
+                          f"{np.asarray(rd).astype(int)}\ncontour={cont.tolist()}")
+
+
+class _FakeContours(list):
+    identifier = "vf-contours"
+
+
+class _FakeImages:
+    def __init__(self, shape):
+        self.shape = (1,) + tuple(shape)
+
+    def __bool__(self):
+        return True
+
+
+class _FakeTdms(dict):
+    """the three things fmt_tdms.event_mask.MaskColumn takes from its dataset"""
+    config = {"imaging": {}}
+
+
+def dclab_refill(cont, shape):
+    """dclab's own refilling of a stored contour (mask feature of tdms data)"""
+    from dclab.rtdc_dataset.fmt_tdms.event_mask import MaskColumn
+    ds = _FakeTdms(contour=_FakeContours([np.asarray(cont)]),
+                   image=_FakeImages(shape))
+    return np.asarray(MaskColumn(ds)[0])
 
 
 def run_mask(spec, rec):
